@@ -78,7 +78,9 @@ func (fr *Frame) val(v ssa.Value) Val {
 			if b, ok := t.Underlying().(*types.Basic); ok && b.Kind() == types.UntypedNil {
 				return Val{T: "null", Sort: SRef, Typ: t}
 			}
-			return u.goVal(u.sorts.zero(t), t)
+			zv := u.goVal(u.sorts.zero(t), t)
+			zv.Zero = true
+			return zv
 		}
 		return u.constVal(x.Value, x.Type())
 	case *ssa.Global:
